@@ -99,6 +99,9 @@ def run(module, cfg, env=None, workers=None, timeout=900, simulate=None, depth=N
         # a sampling run that stopped early (e.g. 32-bit overflow of TLC's integers on a large product): what it printed
         # before stopping is still usable, the caller records the early stop
         r.error = "\n".join(p.stdout.splitlines()[-15:])
+        if not keep:
+            shutil.rmtree(out, ignore_errors=True)
+            r.outdir = None
         return r
     if not r.ok and r.violated is None:
         tail = "\n".join([l for l in p.stdout.splitlines() if not l.startswith(("Parsing file", "Semantic processing", "Linting of", "  |", "<", "  line ", "The coverage", "End of statistics"))][-40:])
@@ -106,8 +109,9 @@ def run(module, cfg, env=None, workers=None, timeout=900, simulate=None, depth=N
             shutil.rmtree(out, ignore_errors=True)
         raise TLCError("TLC failed (exit %s) on %s/%s:\n%s" % (p.returncode, module, cfg, tail))
     if not keep:
-        # caller must read emitted files before returning... so cleanup is the caller's job when keep=True
-        pass
+        # nothing of the scratch directory (TLC's state files, emitted cases) is wanted by the caller
+        shutil.rmtree(out, ignore_errors=True)
+        r.outdir = None
     return r
 
 
